@@ -512,6 +512,468 @@ Example fused_differs_on_string_constants :
      end.
 Proof. vm_compute. auto. Qed.
 
+(** * 3. B (property C12): calls bind arguments by position, isolate activations, and the
+       caller is resumed intact *)
+
+Lemma zlength_cons : forall {A} (x : A) l, zlength (x :: l) = zlength l + 1.
+Proof. intros. unfold zlength. cbn [length]. lia. Qed.
+Lemma zlength_app : forall {A} (a b : list A), zlength (a ++ b) = zlength a + zlength b.
+Proof. intros. unfold zlength. rewrite app_length. lia. Qed.
+Lemma zlength_nonneg : forall {A} (l : list A), 0 <= zlength l.
+Proof. intros. unfold zlength. lia. Qed.
+Lemma repeat_val_length : forall {A} (x : A) n, length (repeat_val x n) = n.
+Proof. induction n; cbn; auto. Qed.
+Lemma repeat_val_nth : forall {A} (x : A) n k, (k < n)%nat -> nth_error (repeat_val x n) k = Some x.
+Proof. induction n; intros k Hk; [lia|]. destruct k; cbn; [reflexivity|]. apply IHn. lia. Qed.
+Lemma nth_error_rev : forall {A} (l : list A) k, (k < length l)%nat ->
+  nth_error (rev l) k = nth_error l (length l - S k).
+Proof.
+  intros A l k Hk. destruct l as [|d l0] eqn:El; [cbn in Hk; lia|]. rewrite <- El in *.
+  rewrite (nth_error_nth' (rev l) d) by (rewrite rev_length; exact Hk).
+  rewrite (nth_error_nth' l d) by lia. f_equal. apply rev_nth. exact Hk.
+Qed.
+Lemma replace_nth_app1 : forall {A} k (v : A) a b, (k < length a)%nat ->
+  replace_nth k v (a ++ b) = replace_nth k v a ++ b.
+Proof.
+  induction k; intros v a b Hk; destruct a; cbn in Hk; try lia; cbn; [reflexivity|].
+  f_equal. apply IHk. lia.
+Qed.
+Lemma replace_nth_length : forall {A} k (v : A) l, length (replace_nth k v l) = length l.
+Proof. induction k; destruct l; cbn; auto. Qed.
+Lemma replace_nth_same : forall {A} k (v : A) l, (k < length l)%nat -> nth_error (replace_nth k v l) k = Some v.
+Proof. induction k; destruct l; cbn; intro H; try lia; [reflexivity|]. apply IHk. lia. Qed.
+Lemma replace_nth_other : forall {A} k j (v : A) l, k <> j -> nth_error (replace_nth k v l) j = nth_error l j.
+Proof.
+  induction k; destruct l; intros H; cbn; try reflexivity.
+  - destruct j; [congruence|reflexivity].
+  - destruct j; [reflexivity|]. cbn. apply IHk. congruence.
+Qed.
+Lemma skipn_app_exact : forall {A} (a b : list A) n, n = length a -> skipn n (a ++ b) = b.
+Proof. intros A a b n ->. induction a; cbn; auto. Qed.
+
+(* the contents of stack position pos (0 = bottom), as get_local / set_local address them *)
+Definition slot (s : vm) (pos : Z) : option val :=
+  if (0 <=? pos) && (pos <? v_slen s) then nth_error (v_stack s) (Z.to_nat (v_slen s - 1 - pos)) else None.
+
+Lemma get_local_slot : forall s i, 0 <= v_bp s + i ->
+  get_local i s = match slot s (v_bp s + i) with Some v => Ok v | None => Fault FLocalSlot end.
+Proof.
+  intros s i H. unfold get_local, slot.
+  destruct (Z.leb_spec 0 (v_bp s + i)); [|lia]. cbn [andb].
+  destruct (v_bp s + i <? v_slen s); reflexivity.
+Qed.
+
+(* positions below the length of `rest` are cells of `rest`, whatever is on top *)
+Lemma slot_below : forall s top rest pos,
+  v_stack s = top ++ rest -> v_slen s = zlength (v_stack s) -> 0 <= pos < zlength rest ->
+  slot s pos = nth_error rest (Z.to_nat (zlength rest - 1 - pos)).
+Proof.
+  intros s top rest pos Hst Hlen Hpos. unfold slot. rewrite Hlen, Hst, zlength_app.
+  pose proof (@zlength_nonneg val top).
+  destruct (Z.leb_spec 0 pos); [|lia]. destruct (Z.ltb_spec pos (zlength top + zlength rest)); [|lia].
+  cbn [andb]. unfold zlength in *. rewrite nth_error_app2 by lia. f_equal. lia.
+Qed.
+
+(* the state right after a successful Call *)
+Definition called (s : vm) (ip n argc : Z) (args_rev rest : list val) (cur : frame) (frs : list frame) : vm :=
+  mkVM (repeat_val VNull (Z.to_nat (n - argc)) ++ args_rev ++ rest) (zlength rest + n) (v_globals s)
+       (mkFrame ip (zlength rest) :: mkFrame (v_ip s + 2) (f_bp cur) :: frs) ip (zlength rest)
+       (v_final s) (v_heap s) (v_gc s) (v_out s).
+
+Section Calls.
+  Variable orc : oracle.
+  Variable prog : program.
+
+  (** ** B1 *)
+  Theorem call_frame : forall s argc ip n args_rev rest cur frs r,
+    code_at prog (v_ip s) (byte_of_opcode OCall :: argc :: r) ->
+    v_stack s = VFun ip n :: args_rev ++ rest ->
+    v_slen s = zlength (v_stack s) ->
+    zlength args_rev = argc -> argc <= n ->
+    v_slen s - 1 + n <= MAX_STACK_SIZE ->
+    v_frames s = cur :: frs -> zlength (v_frames s) < MAX_FRAMES ->
+    step orc prog s = Ok (Continue (called s ip n argc args_rev rest cur frs)).
+  Proof.
+    intros s argc ip n args_rev rest cur frs r H Hst Hlen Hargc Hn Hmax Hfr Hfrs.
+    rewrite (step_Call_raw orc prog s (code_at_head _ _ _ _ H)). unfold cont.
+    rewrite (read_u8_code prog (upd_ip s (v_ip s + 1)) argc r (code_at_tail _ _ _ _ H)).
+    vmsimpl. unfold pop. vmsimpl. rewrite Hst. vmsimpl.
+    rewrite Hst, zlength_cons, zlength_app in Hlen. pose proof (@zlength_nonneg val rest) as Hr.
+    destruct (Z.ltb_spec n argc); [lia|].
+    destruct (Z.ltb_spec MAX_STACK_SIZE (v_slen s - 1 + n)); [lia|].
+    destruct (Z.leb_spec MAX_FRAMES (zlength (v_frames s))); [lia|]. cbn [orb].
+    destruct (Z.ltb_spec (v_slen s - 1) argc); [lia|].
+    unfold pushframe. vmsimpl. rewrite Hfr. vmsimpl. unfold called.
+    replace (v_slen s - 1 - argc) with (zlength rest) by lia.
+    replace (v_slen s - 1 + (n - argc)) with (zlength rest + n) by lia.
+    replace (v_ip s + 1 + 1) with (v_ip s + 2) by lia. reflexivity.
+  Qed.
+
+  (* slot i of the new activation holds the i-th argument in SOURCE order (args_rev lists the
+     arguments top of stack first, i.e. last argument first) ... *)
+  Theorem call_binds_by_position : forall s ip n argc args_rev rest cur frs i,
+    zlength args_rev = argc -> argc <= n -> 0 <= i < argc ->
+    exists v, nth_error (rev args_rev) (Z.to_nat i) = Some v
+              /\ get_local i (called s ip n argc args_rev rest cur frs) = Ok v.
+  Proof.
+    intros s ip n argc args_rev rest cur frs i Hargc Hn Hi.
+    unfold zlength in Hargc.
+    destruct (nth_error (rev args_rev) (Z.to_nat i)) as [v|] eqn:E.
+    2:{ apply nth_error_None in E. rewrite rev_length in E. lia. }
+    exists v. split; [reflexivity|].
+    unfold get_local, called. vmsimpl. pose proof (@zlength_nonneg val rest).
+    destruct (Z.ltb_spec (zlength rest + i) (zlength rest + n)); [|lia].
+    rewrite nth_error_app2 by (rewrite repeat_val_length; lia). rewrite repeat_val_length.
+    rewrite nth_error_app1 by lia.
+    rewrite nth_error_rev in E by lia.
+    replace (Z.to_nat (zlength rest + n - 1 - (zlength rest + i)) - Z.to_nat (n - argc))%nat
+      with (length args_rev - S (Z.to_nat i))%nat by lia.
+    rewrite E. reflexivity.
+  Qed.
+
+  (* ... and the parameters not supplied, and the other locals, start as null *)
+  Theorem call_pads_with_null : forall s ip n argc args_rev rest cur frs i,
+    zlength args_rev = argc -> argc <= i < n ->
+    get_local i (called s ip n argc args_rev rest cur frs) = Ok VNull.
+  Proof.
+    intros s ip n argc args_rev rest cur frs i Hargc Hi.
+    unfold get_local, called. vmsimpl. pose proof (@zlength_nonneg val rest).
+    destruct (Z.ltb_spec (zlength rest + i) (zlength rest + n)); [|lia].
+    rewrite nth_error_app1 by (rewrite repeat_val_length; lia).
+    rewrite repeat_val_nth by lia. reflexivity.
+  Qed.
+
+  (* nothing else is touched by a call *)
+  Theorem call_preserves : forall s ip n argc args_rev rest cur frs,
+    let s' := called s ip n argc args_rev rest cur frs in
+    v_globals s' = v_globals s /\ v_heap s' = v_heap s /\ v_gc s' = v_gc s /\ v_out s' = v_out s
+    /\ v_final s' = v_final s /\ v_ip s' = ip /\ v_bp s' = zlength rest
+    /\ v_frames s' = mkFrame ip (zlength rest) :: mkFrame (v_ip s + 2) (f_bp cur) :: frs.
+  Proof. intros. unfold s', called. vmsimpl. repeat split. Qed.
+
+  Lemma called_slen : forall s ip n argc args_rev rest cur frs,
+    zlength args_rev = argc -> argc <= n ->
+    v_slen (called s ip n argc args_rev rest cur frs) = zlength (v_stack (called s ip n argc args_rev rest cur frs)).
+  Proof.
+    intros. unfold called. vmsimpl. rewrite !zlength_app. unfold zlength at 2. rewrite repeat_val_length. lia.
+  Qed.
+
+  (** ** B2 *)
+  Theorem arity_checked : forall s argc ip n st r,
+    code_at prog (v_ip s) (byte_of_opcode OCall :: argc :: r) ->
+    v_stack s = VFun ip n :: st -> n < argc ->
+    step orc prog s = Err EArgumentError.
+  Proof.
+    intros s argc ip n st r H Hst Hn.
+    rewrite (step_Call_raw orc prog s (code_at_head _ _ _ _ H)). unfold cont.
+    rewrite (read_u8_code prog (upd_ip s (v_ip s + 1)) argc r (code_at_tail _ _ _ _ H)).
+    vmsimpl. unfold pop. vmsimpl. rewrite Hst. vmsimpl.
+    destruct (Z.ltb_spec n argc); [reflexivity|lia].
+  Qed.
+
+  Theorem depth_limit : forall s argc ip n st r,
+    code_at prog (v_ip s) (byte_of_opcode OCall :: argc :: r) ->
+    v_stack s = VFun ip n :: st -> argc <= n ->
+    MAX_STACK_SIZE < v_slen s - 1 + n \/ MAX_FRAMES <= zlength (v_frames s) ->
+    step orc prog s = Err ETypeError.
+  Proof.
+    intros s argc ip n st r H Hst Hn Hlim.
+    rewrite (step_Call_raw orc prog s (code_at_head _ _ _ _ H)). unfold cont.
+    rewrite (read_u8_code prog (upd_ip s (v_ip s + 1)) argc r (code_at_tail _ _ _ _ H)).
+    vmsimpl. unfold pop. vmsimpl. rewrite Hst. vmsimpl.
+    destruct (Z.ltb_spec n argc); [lia|].
+    destruct (Z.ltb_spec MAX_STACK_SIZE (v_slen s - 1 + n)); [reflexivity|].
+    destruct (Z.leb_spec MAX_FRAMES (zlength (v_frames s))); [reflexivity|lia].
+  Qed.
+
+  Theorem call_non_function : forall s argc f st r,
+    code_at prog (v_ip s) (byte_of_opcode OCall :: argc :: r) ->
+    v_stack s = f :: st -> (forall ip n, f <> VFun ip n) ->
+    step orc prog s = Err ETypeError.
+  Proof.
+    intros s argc f st r H Hst Hf.
+    rewrite (step_Call_raw orc prog s (code_at_head _ _ _ _ H)). unfold cont.
+    rewrite (read_u8_code prog (upd_ip s (v_ip s + 1)) argc r (code_at_tail _ _ _ _ H)).
+    vmsimpl. unfold pop. vmsimpl. rewrite Hst. vmsimpl.
+    destruct f; try reflexivity. exfalso. exact (Hf _ _ eq_refl).
+  Qed.
+
+  (* the complete case analysis of Call on a non-empty stack: no other outcome exists; a frame
+     is pushed only with a non-negative padding n - argc, a stack within the limit and a base
+     pointer inside the stack *)
+  Theorem call_outcomes : forall s argc f st r,
+    code_at prog (v_ip s) (byte_of_opcode OCall :: argc :: r) ->
+    v_stack s = f :: st ->
+    step orc prog s = Err ETypeError \/ step orc prog s = Err EArgumentError
+    \/ step orc prog s = Fault FCallUnderflow \/ step orc prog s = Fault FNoFrame
+    \/ exists ip n s', f = VFun ip n /\ step orc prog s = Ok (Continue s')
+         /\ argc <= n /\ v_slen s' = v_slen s - 1 + (n - argc) /\ v_slen s - 1 + n <= MAX_STACK_SIZE
+         /\ zlength (v_frames s) < MAX_FRAMES
+         /\ v_bp s' = v_slen s - 1 - argc /\ 0 <= v_bp s' /\ v_ip s' = ip.
+  Proof.
+    intros s argc f st r H Hst.
+    rewrite (step_Call_raw orc prog s (code_at_head _ _ _ _ H)). unfold cont.
+    rewrite (read_u8_code prog (upd_ip s (v_ip s + 1)) argc r (code_at_tail _ _ _ _ H)).
+    vmsimpl. unfold pop. vmsimpl. rewrite Hst. vmsimpl.
+    destruct f; auto.
+    destruct (Z.ltb_spec n argc); auto.
+    destruct (Z.ltb_spec MAX_STACK_SIZE (v_slen s - 1 + n)); auto.
+    destruct (Z.leb_spec MAX_FRAMES (zlength (v_frames s))); auto. cbn [orb].
+    destruct (Z.ltb_spec (v_slen s - 1) argc); auto.
+    unfold pushframe. vmsimpl. destruct (v_frames s) as [|cur frs]; auto.
+    right. right. right. right. vmsimpl. eexists ip, n, _. split; [reflexivity|]. split; [reflexivity|].
+    vmsimpl. repeat split; lia.
+  Qed.
+
+  (** ** B3 *)
+  Lemma popframe_spec : forall s above rest fr cur frs,
+    v_stack s = above ++ rest -> v_slen s = zlength (v_stack s) ->
+    v_frames s = fr :: cur :: frs -> f_bp fr = zlength rest ->
+    popframe s = Ok (mkVM rest (zlength rest) (v_globals s) (cur :: frs) (f_ip cur) (f_bp cur)
+                          (v_final s) (v_heap s) (v_gc s) (v_out s)).
+  Proof.
+    intros s above rest fr cur frs Hst Hlen Hfr Hbp. unfold popframe. rewrite Hfr.
+    rewrite Hst, zlength_app in Hlen. rewrite Hbp, Hlen.
+    destruct (Z.ltb_spec (zlength rest) (zlength above + zlength rest)) as [L|L].
+    - rewrite Hst. rewrite skipn_app_exact by (unfold zlength; lia). reflexivity.
+    - assert (above = []) by (destruct above; [reflexivity|rewrite zlength_cons in L; pose proof (@zlength_nonneg val above); lia]).
+      subst above. rewrite Hst. cbn [app]. change (zlength (@nil val)) with 0. rewrite Z.add_0_l. reflexivity.
+  Qed.
+
+  (* popframe never touches what lies below the frame's base pointer, in any state at all:
+     the stack afterwards is a suffix of the stack before *)
+  Lemma popframe_suffix : forall s s', popframe s = Ok s' -> exists above, v_stack s = above ++ v_stack s'.
+  Proof.
+    intros s s' H. unfold popframe in H. destruct (v_frames s) as [|fr [|cur frs]]; try discriminate H.
+    inversion H; subst s'; clear H. vmsimpl.
+    destruct (f_bp fr <? v_slen s).
+    - exists (firstn (Z.to_nat (v_slen s - f_bp fr)) (v_stack s)). symmetry. apply firstn_skipn.
+    - exists []. reflexivity.
+  Qed.
+
+  (* what the collection at a return may change: the heap (alive flags of unreachable boxes,
+     the freed counter) and the collector's own tables.  Nothing else. *)
+  Lemma collect_frame : forall s extra s', collect prog s extra = Ok s' ->
+    exists h' g', gc_run (v_heap s) (v_gc s) (roots prog s extra) = Ok (g', h') /\ s' = upd_heap s h' g'.
+  Proof.
+    intros s extra s' H. unfold collect in H.
+    destruct (gc_run (v_heap s) (v_gc s) (roots prog s extra)) as [[g' h']| | |]; try discriminate H.
+    vmsimpl_in H. inversion H; subst. eauto.
+  Qed.
+
+  (* the state the caller is resumed in, before the collection *)
+  Definition resumed (s : vm) (rest : list val) (ret cbp : Z) (frs : list frame) : vm :=
+    mkVM rest (zlength rest) (v_globals s) (mkFrame ret cbp :: frs) ret cbp
+         (v_final s) (v_heap s) (v_gc s) (v_out s).
+
+  Theorem return_value_step : forall s result above rest fr ret cbp frs,
+    byte_at prog (v_ip s) = Some (byte_of_opcode OReturnValue) ->
+    v_stack s = result :: above ++ rest -> v_slen s = zlength (v_stack s) ->
+    v_frames s = fr :: mkFrame ret cbp :: frs -> f_bp fr = zlength rest ->
+    step orc prog s =
+    do s3 <- collect prog (resumed s rest ret cbp frs) [v_final s; result]; Ok (Continue (push result s3)).
+  Proof.
+    intros s result above rest fr ret cbp frs H Hst Hlen Hfr Hbp.
+    rewrite (step_ReturnValue_raw orc prog s H). unfold cont, pop. vmsimpl. rewrite Hst. vmsimpl.
+    rewrite (popframe_spec _ above rest fr (mkFrame ret cbp) frs); vmsimpl; auto.
+    2:{ rewrite Hlen, Hst, zlength_cons. lia. }
+    unfold resumed. destruct (collect prog _ _); reflexivity.
+  Qed.
+
+  Theorem return_step : forall s above rest fr ret cbp frs,
+    byte_at prog (v_ip s) = Some (byte_of_opcode OReturn) ->
+    v_stack s = above ++ rest -> v_slen s = zlength (v_stack s) ->
+    v_frames s = fr :: mkFrame ret cbp :: frs -> f_bp fr = zlength rest ->
+    step orc prog s =
+    do s3 <- collect prog (resumed s rest ret cbp frs) [v_final s]; Ok (Continue (push VNull s3)).
+  Proof.
+    intros s above rest fr ret cbp frs H Hst Hlen Hfr Hbp.
+    rewrite (step_Return_raw orc prog s H). unfold cont.
+    rewrite (popframe_spec _ above rest fr (mkFrame ret cbp) frs); vmsimpl; auto.
+    unfold resumed. destruct (collect prog _ _); reflexivity.
+  Qed.
+
+  (* B3: whatever the callee left above `rest`, after ReturnValue the caller sees its own part
+     of the stack IDENTICAL, with the result on top; ip, bp and frames are the saved ones;
+     globals, final value and output unchanged; heap and collector as gc_run leaves them *)
+  Theorem return_restores : forall s result above rest fr ret cbp frs s',
+    byte_at prog (v_ip s) = Some (byte_of_opcode OReturnValue) ->
+    v_stack s = result :: above ++ rest -> v_slen s = zlength (v_stack s) ->
+    v_frames s = fr :: mkFrame ret cbp :: frs -> f_bp fr = zlength rest ->
+    step orc prog s = Ok (Continue s') ->
+    v_stack s' = result :: rest /\ v_slen s' = zlength (v_stack s')
+    /\ v_ip s' = ret /\ v_bp s' = cbp /\ v_frames s' = mkFrame ret cbp :: frs
+    /\ v_globals s' = v_globals s /\ v_final s' = v_final s /\ v_out s' = v_out s
+    /\ gc_run (v_heap s) (v_gc s) (roots prog (resumed s rest ret cbp frs) [v_final s; result])
+       = Ok (v_gc s', v_heap s').
+  Proof.
+    intros s result above rest fr ret cbp frs s' H Hst Hlen Hfr Hbp Hstep.
+    rewrite (return_value_step s result above rest fr ret cbp frs H Hst Hlen Hfr Hbp) in Hstep.
+    destruct (collect prog _ _) as [s3| | |] eqn:C; try discriminate Hstep.
+    vmsimpl_in Hstep. inversion Hstep; subst s'; clear Hstep.
+    destruct (collect_frame _ _ _ C) as (h' & g' & Hrun & ->). unfold resumed in *. vmsimpl.
+    vmsimpl_in Hrun. rewrite zlength_cons. repeat split; auto.
+  Qed.
+
+  Theorem return_null_restores : forall s above rest fr ret cbp frs s',
+    byte_at prog (v_ip s) = Some (byte_of_opcode OReturn) ->
+    v_stack s = above ++ rest -> v_slen s = zlength (v_stack s) ->
+    v_frames s = fr :: mkFrame ret cbp :: frs -> f_bp fr = zlength rest ->
+    step orc prog s = Ok (Continue s') ->
+    v_stack s' = VNull :: rest /\ v_slen s' = zlength (v_stack s')
+    /\ v_ip s' = ret /\ v_bp s' = cbp /\ v_frames s' = mkFrame ret cbp :: frs
+    /\ v_globals s' = v_globals s /\ v_final s' = v_final s /\ v_out s' = v_out s
+    /\ gc_run (v_heap s) (v_gc s) (roots prog (resumed s rest ret cbp frs) [v_final s])
+       = Ok (v_gc s', v_heap s').
+  Proof.
+    intros s above rest fr ret cbp frs s' H Hst Hlen Hfr Hbp Hstep.
+    rewrite (return_step s above rest fr ret cbp frs H Hst Hlen Hfr Hbp) in Hstep.
+    destruct (collect prog _ _) as [s3| | |] eqn:C; try discriminate Hstep.
+    vmsimpl_in Hstep. inversion Hstep; subst s'; clear Hstep.
+    destruct (collect_frame _ _ _ C) as (h' & g' & Hrun & ->). unfold resumed in *. vmsimpl.
+    vmsimpl_in Hrun. rewrite zlength_cons. repeat split; auto.
+  Qed.
+
+  (* call and return together: s0 performs the call (hypotheses of call_frame); s is ANY later
+     state of the callee that still has the frame list the call created and whose stack still
+     contains the caller's part `rest` at the bottom; it returns.  The caller gets back exactly
+     `rest`, its own base pointer, and the address right after its call instruction. *)
+  Theorem call_return_roundtrip : forall s0 argc ip n args_rev rest cur frs s result above s',
+    v_frames s0 = cur :: frs ->
+    v_frames s = v_frames (called s0 ip n argc args_rev rest cur frs) ->
+    byte_at prog (v_ip s) = Some (byte_of_opcode OReturnValue) ->
+    v_stack s = result :: above ++ rest -> v_slen s = zlength (v_stack s) ->
+    step orc prog s = Ok (Continue s') ->
+    v_stack s' = result :: rest /\ v_ip s' = v_ip s0 + 2 /\ v_bp s' = f_bp cur
+    /\ v_frames s' = mkFrame (v_ip s0 + 2) (f_bp cur) :: frs
+    /\ v_globals s' = v_globals s /\ v_out s' = v_out s.
+  Proof.
+    intros s0 argc ip n args_rev rest cur frs s result above s' Hf0 Hf H Hst Hlen Hstep.
+    unfold called in Hf. vmsimpl_in Hf.
+    destruct (return_restores s result above rest _ _ _ _ s' H Hst Hlen Hf eq_refl Hstep)
+      as (A & _ & B & C & D & E & _ & F & _).
+    auto 10.
+  Qed.
+
+  (** ** B4 *)
+  (* writing a local of the running activation changes one cell above the base pointer; in
+     particular never a cell of `rest` *)
+  Lemma set_local_above_bp : forall s top rest i v,
+    v_stack s = top ++ rest -> v_slen s = zlength (v_stack s) -> v_bp s = zlength rest ->
+    0 <= i < zlength top ->
+    exists top', set_local i v s = Ok (upd_stack s (top' ++ rest) (v_slen s))
+                 /\ length top' = length top
+                 /\ nth_error top' (Z.to_nat (zlength top - 1 - i)) = Some v
+                 /\ forall j, j <> Z.to_nat (zlength top - 1 - i) -> nth_error top' j = nth_error top j.
+  Proof.
+    intros s top rest i v Hst Hlen Hbp Hi.
+    exists (replace_nth (Z.to_nat (zlength top - 1 - i)) v top).
+    unfold set_local. rewrite Hbp, Hlen, Hst, zlength_app.
+    destruct (Z.ltb_spec (zlength rest + i) (zlength top + zlength rest)); [|lia].
+    replace (zlength top + zlength rest - 1 - (zlength rest + i)) with (zlength top - 1 - i) by lia.
+    rewrite replace_nth_app1 by (unfold zlength in *; lia).
+    split; [reflexivity|]. split; [apply replace_nth_length|].
+    split; [apply replace_nth_same; unfold zlength in *; lia|].
+    intros j Hj. apply replace_nth_other. congruence.
+  Qed.
+
+  (* B4: right after a call, (a) the caller's cells are where they were, with the same contents;
+     (b) the n slots of the new activation are the stack positions bp .. bp+n-1, all of them
+     above every position of `rest`; (c) a write to any of them leaves `rest` alone. *)
+  Theorem activations_disjoint : forall s ip n argc args_rev rest cur frs,
+    zlength args_rev = argc -> argc <= n ->
+    let s' := called s ip n argc args_rev rest cur frs in
+    (forall pos, 0 <= pos < zlength rest ->
+       slot s' pos = nth_error rest (Z.to_nat (zlength rest - 1 - pos)))
+    /\ (forall i, 0 <= i < n ->
+          zlength rest <= v_bp s' + i < v_slen s'
+          /\ get_local i s' = match slot s' (v_bp s' + i) with Some v => Ok v | None => Fault FLocalSlot end
+          /\ slot s' (v_bp s' + i) <> None)
+    /\ (forall i v, 0 <= i < n ->
+          exists top', set_local i v s' = Ok (upd_stack s' (top' ++ rest) (v_slen s'))
+                       /\ zlength top' = n).
+  Proof.
+    intros s ip n argc args_rev rest cur frs Hargc Hn s'.
+    assert (Hst : v_stack s' = (repeat_val VNull (Z.to_nat (n - argc)) ++ args_rev) ++ rest)
+      by (unfold s', called; vmsimpl; rewrite app_assoc; reflexivity).
+    assert (Hlen : v_slen s' = zlength (v_stack s')) by (apply called_slen; auto).
+    assert (Htop : zlength (repeat_val VNull (Z.to_nat (n - argc)) ++ args_rev) = n).
+    { rewrite zlength_app. unfold zlength at 1. rewrite repeat_val_length. lia. }
+    pose proof (@zlength_nonneg val rest) as Hr.
+    split; [|split].
+    - intros pos Hpos. apply (slot_below s' _ rest pos Hst Hlen Hpos).
+    - intros i Hi. assert (Hb : v_bp s' = zlength rest) by reflexivity.
+      assert (Hs : v_slen s' = zlength rest + n) by reflexivity.
+      split; [lia|]. split; [apply get_local_slot; lia|].
+      unfold slot. rewrite Hb, Hs.
+      destruct (Z.leb_spec 0 (zlength rest + i)); [|lia].
+      destruct (Z.ltb_spec (zlength rest + i) (zlength rest + n)); [|lia]. cbn [andb].
+      intro E. apply nth_error_None in E. rewrite Hst, app_length in E. unfold zlength in *. lia.
+    - intros i v Hi.
+      destruct (set_local_above_bp s' _ rest i v Hst Hlen eq_refl ltac:(lia)) as (top' & E & L & _).
+      exists top'. split; [exact E|]. unfold zlength in *. lia.
+  Qed.
+
+  (* two live activations (of the same function or not): if at a second call the first
+     activation's n1 slots are still on the stack below the arguments, the base pointer of the
+     second activation lies above all of them *)
+  Theorem nested_activations_disjoint :
+    forall s1 ip1 n1 argc1 args1 rest1 cur1 frs1 s2 ip2 n2 argc2 args2 cur2 frs2 mid locals1,
+    zlength locals1 = n1 ->
+    let a1 := called s1 ip1 n1 argc1 args1 rest1 cur1 frs1 in
+    let a2 := called s2 ip2 n2 argc2 args2 (mid ++ locals1 ++ rest1) cur2 frs2 in
+    v_bp a1 + n1 <= v_bp a2.
+  Proof.
+    intros. unfold a1, a2, called. vmsimpl. rewrite !zlength_app.
+    pose proof (@zlength_nonneg val mid). lia.
+  Qed.
+End Calls.
+
+(* non-vacuity of B: f(10, 20) with a function of 3 locals called from a frame holding [7; 8] *)
+Definition ex_call_prog : program :=
+  mkProgram [byte_of_opcode OCall; 2; byte_of_opcode OHalt; byte_of_opcode OGetLocal; 1; 0;
+             byte_of_opcode OReturnValue] [].
+Definition ex_call_state : vm :=
+  mkVM [VFun 3 3; VInt 20; VInt 10; VInt 8; VInt 7] 5 [] [mkFrame 0 0] 0 0 VNull empty_heap gc_new [].
+
+Example call_frame_nonvacuous :
+  code_at ex_call_prog (v_ip ex_call_state) [byte_of_opcode OCall; 2]
+  /\ step dummy_orc ex_call_prog ex_call_state
+     = Ok (Continue (called ex_call_state 3 3 2 [VInt 20; VInt 10] [VInt 8; VInt 7] (mkFrame 0 0) []))
+  /\ get_local 0 (called ex_call_state 3 3 2 [VInt 20; VInt 10] [VInt 8; VInt 7] (mkFrame 0 0) []) = Ok (VInt 10)
+  /\ get_local 1 (called ex_call_state 3 3 2 [VInt 20; VInt 10] [VInt 8; VInt 7] (mkFrame 0 0) []) = Ok (VInt 20)
+  /\ get_local 2 (called ex_call_state 3 3 2 [VInt 20; VInt 10] [VInt 8; VInt 7] (mkFrame 0 0) []) = Ok VNull
+  /\ nsteps dummy_orc ex_call_prog 3 ex_call_state
+     = Ok (Continue (mkVM [VInt 20; VInt 8; VInt 7] 3 [] [mkFrame 2 0] 2 0 VNull empty_heap gc_new [])).
+Proof.
+  split; [apply code_at_check; [vm_compute; discriminate|vm_compute; reflexivity]|].
+  repeat split; vm_compute; reflexivity.
+Qed.
+
+Example call_errors_nonvacuous :
+  step dummy_orc (mkProgram [byte_of_opcode OCall; 3] [])
+       (mkVM [VFun 3 2; VInt 1; VInt 2; VInt 3] 4 [] [mkFrame 0 0] 0 0 VNull empty_heap gc_new [])
+  = Err EArgumentError
+  /\ step dummy_orc (mkProgram [byte_of_opcode OCall; 0] [])
+       (mkVM [VFun 3 65535; VInt 1] 2 [] [mkFrame 0 0] 0 0 VNull empty_heap gc_new [])
+  = Err ETypeError
+  /\ step dummy_orc (mkProgram [byte_of_opcode OCall; 0] [])
+       (mkVM [VInt 3] 1 [] [mkFrame 0 0] 0 0 VNull empty_heap gc_new [])
+  = Err ETypeError.
+Proof. repeat split; vm_compute; reflexivity. Qed.
+
 Print Assumptions fused_generic3.
 Print Assumptions generic3_steps.
 Print Assumptions fused_step_equiv.
+Print Assumptions call_frame.
+Print Assumptions call_binds_by_position.
+Print Assumptions call_pads_with_null.
+Print Assumptions arity_checked.
+Print Assumptions depth_limit.
+Print Assumptions call_non_function.
+Print Assumptions return_restores.
+Print Assumptions return_null_restores.
+Print Assumptions call_return_roundtrip.
+Print Assumptions popframe_suffix.
+Print Assumptions activations_disjoint.
+Print Assumptions nested_activations_disjoint.
